@@ -5,6 +5,28 @@ import os
 import traceback
 
 _FN = None
+WORKER_PIDS = set()
+
+
+def _worker_init():
+    # die with the parent (the watchdog of ./check, an external timeout): a worker must never outlive the run and keep
+    # the output pipe open
+    try:
+        import ctypes
+        import signal
+        ctypes.CDLL(None).prctl(1, int(signal.SIGKILL), 0, 0, 0)     # PR_SET_PDEATHSIG
+    except Exception:
+        pass
+
+
+def kill_workers():
+    import signal
+    for pid in list(WORKER_PIDS):
+        try:
+            os.kill(pid, signal.SIGKILL)
+        except OSError:
+            pass
+    WORKER_PIDS.clear()
 
 
 def _call(i_arg):
@@ -27,10 +49,13 @@ def pmap(fn, items, procs=None):
     ctx = mp.get_context('fork')
     out = [None] * len(items)
     chunk = max(1, len(items) // (procs * 8))
-    with ctx.Pool(procs) as pool:
+    with ctx.Pool(procs, initializer=_worker_init) as pool:
+        pids = set(p.pid for p in getattr(pool, '_pool', ()))
+        WORKER_PIDS.update(pids)
         for i, r, err in pool.imap_unordered(_call, list(enumerate(items)), chunksize=chunk):
             if err:
                 pool.terminate()
                 raise RuntimeError('worker failed on item %r:\n%s' % (items[i], err))
             out[i] = r
+        WORKER_PIDS.difference_update(pids)
     return out
